@@ -127,11 +127,11 @@ PROPS = {
         "7 C10"),
     "C11": entry(
         "Physical tuning and cache sharing never change logical results",
-        [ia("filters", 600, 20000), ia("tables", 300, 10000), ib("all", 300, 10000, blob=2, ops=50)],
-        "I-A: Bloom filters (bpk / fpr, k 1..34, adversarial hash values incl. wrap-around) and in-block hash indexes built by the real builders vs model (bits, probes, buckets, read plans); tables written with every combination of block size, restart interval, hash ratio, partitioned index / filter, bloom policy, pinning; I-B: histories under randomly drawn physical configurations (block size 1..4096, restart 1/2/16, hash ratio 0/0.75/8, partitioning, pinning, bloom none/bpk/fpr, cache 0 / 1 KiB / 8 MiB, descriptor table none/1/2/64) all compared with the same configuration-free model and ordered-map oracle",
+        [ia("filters", 600, 20000), ia("tables", 300, 10000), ib("all", 300, 10000, blob=2, ops=50), {"args": ["ib", "core", "--shared-cache", "--ops", "40"], "cases": {"quick": 40, "thorough": 1500}}],
+        "I-A: Bloom filters (bpk / fpr, k 1..34, adversarial hash values incl. wrap-around) and in-block hash indexes built by the real builders vs model (bits, probes, buckets, read plans); tables written with every combination of block size, restart interval, hash ratio, partitioned index / filter, bloom policy, pinning; I-B: histories under randomly drawn physical configurations (block size 1..4096, restart 1/2/16, hash ratio 0/0.75/8, partitioning, pinning, bloom none/bpk/fpr, cache 0 / 1 KiB / 8 MiB, descriptor table none/1/2/64) all compared with the same configuration-free model and ordered-map oracle; shared-cache groups: the same history on 3 trees with different physical configurations (one of them key-value-separated) that share ONE Cache (0 B .. 8 MiB) and ONE DescriptorTable (none / 1 / 3), alive at the same time with coinciding table ids, each validated against model and oracle",
         TECH,
         "c11_bloom_no_false_negative (every m > 0, k, all 64-bit hashes incl. wrap-around; builder and reader loops proved to probe the same positions), c11_hash_index_sound / _notFound_absent / _found_unique, c11_point_read_absent_sound, c11_cache_key_injective; the logical model has no physical parameters, so agreement of every configuration with it is agreement between configurations.",
-        "quick_cache itself and the f32 bucket / bit-count arithmetic are not modelled (taken from the run); trees sharing one Cache concurrently are exercised by cache key injectivity (proved) rather than by a multi-tree run",
+        "quick_cache itself and the f32 bucket / bit-count arithmetic are not modelled (taken from the run); cache key injectivity is proved; cache sharing between live trees is additionally exercised by the shared-cache groups",
         "7 C11"),
     "C12": entry(
         "A table returns every item written to it through every read path",
